@@ -388,6 +388,8 @@ def run(chk):
             chk.verdict("D5", (f, c), c, True if (from_mask and ok_axes) else False,
                         f"{name}: apply_mask is not applied with one axis per factor by the mask returned from truncation_mask")
 
+    from . import e10
+    e10.run_U(chk, ("yastn.tensor.linalg",), floor1=5, floor2=1)
 
 MUTANTS = [
     ("keep smallest", "yastn/tensor/linalg.py", "    Smask._data[inds[:-D_total]] = False\n    return Smask", "    Smask._data[inds[:D_total]] = False\n    return Smask", "D1"),
